@@ -1168,6 +1168,12 @@ func (env *specEnv) eval(x ast.Expr) (T, error) {
 			return T{"(select (select " + e.H(env.cur, h, hs) + " (sarr " + a.S + ")) (+ (soff " + a.S + ") " + k.S + "))", e.sortOf(u.Elem()), u.Elem()}, nil
 		case *types.Array:
 			return T{"(select " + a.S + " " + k.S + ")", e.sortOf(u.Elem()), u.Elem()}, nil
+		case *types.Pointer:
+			if at, ok := u.Elem().Underlying().(*types.Array); ok {
+				if _, elS := at.Elem().Underlying().(*types.Struct); elS {
+					return T{f.eaTerm(a.S, k.S), "Int", types.NewPointer(at.Elem())}, nil
+				}
+			}
 		}
 		return T{}, fmt.Errorf("cannot index %s", a.Go)
 	case *ast.SliceExpr:
@@ -1263,6 +1269,16 @@ func (env *specEnv) field(a T, name string) (T, error) {
 			if _, isS := ft.Underlying().(*types.Struct); isS {
 				cur = T{f.subRef(S, idx, cur.S), "Int", types.NewPointer(ft)}
 				continue
+			}
+			if at, isA := ft.Underlying().(*types.Array); isA {
+				if _, elS := at.Elem().Underlying().(*types.Struct); elS {
+					// array of structs held by value: its elements are sub-objects addressed as in the
+					// code (&x.f[i] == ea(fa_f(x), i)); the term denotes the address of the array
+					fn := "fa_" + e.structKey(S) + "_" + us.Field(idx).Name()
+					e.declFun(fn, []string{"Int"}, "Int")
+					cur = T{"(" + fn + " " + cur.S + ")", "Int", types.NewPointer(ft)}
+					continue
+				}
 			}
 			h, hs, _, _ := f.heapOfField(S, idx)
 			v := T{"(select " + e.H(env.cur, h, hs) + " " + cur.S + ")", e.sortOf(ft), ft}
